@@ -7,12 +7,12 @@ wt=/tmp/mut/$id
 mkdir -p $wt/tmp
 export CARGO_NET_OFFLINE=true CARGO_TARGET_DIR=$wt/target TMPDIR=$wt/tmp   # the crate's Unix-socket tests use fixed paths under $TMPDIR
 cd $wt || exit 1
-git checkout -q -- . ; git clean -qfd -e target
+git checkout -q -- . ; git clean -qfd -e target -e tmp
 cp $out/$demo $wt/$dest
 echo "--- demo on original:"; timeout 600 cargo test --offline "$@" 2>&1 | grep -E "^test result|panicked|FAILED|error" | head -5
 git apply $out/patch.diff || { echo "PATCH DOES NOT APPLY"; exit 1; }
 echo "--- demo with patch:"; timeout 600 cargo test --offline "$@" 2>&1 | grep -E "^test result|FAILED|error\[" | head -5
 rm -f $wt/$dest
 echo "--- suite with patch:"; timeout 900 cargo test --workspace --no-fail-fast --offline 2>&1 | grep -E "^test result|^test .* FAILED" | awk '/FAILED/ {print} /^test result/ {p+=$4; f+=$6} END {print "passed",p,"failed",f}'
-git checkout -q -- . ; git clean -qfd -e target
+git checkout -q -- . ; git clean -qfd -e target -e tmp
 rm -rf $wt/target $wt/tmp
